@@ -432,3 +432,29 @@ Proof.
   rewrite <- (bucket_contains_unique _ _ (bucket_of_req_wf _) Hbx).
   now rewrite <- (bucket_contains_unique _ _ (bucket_of_req_wf _) Hbw).
 Qed.
+
+(* ------------------------------------------------------------------ non-vacuity *)
+
+(* The hypotheses [valid_solution .. = true] and [edge ..] of the lookup theorems are met by a
+   non-trivial universe: a 0.x package, an exact prerelease next to a release of the same
+   package, a cycle in the index, two classes of one package selected at once. *)
+Example valid_example :
+  let idx := [ PV 0 (V 1 2 0 EmptyString) [Dep "x" 1 (RCompat 0 (Some 2) None)];
+               PV 0 (V 1 0 0 "alpha") [];
+               PV 0 (V 2 0 0 EmptyString) [Dep "old" 0 (RCompat 1 (Some 1) (Some 3))];
+               PV 1 (V 0 2 4 EmptyString) [Dep "back" 0 (RCompat 1 None None)];
+               PV 1 (V 0 3 0 EmptyString) [] ] in
+  let man := [ Dep "a" 0 (RCompat 2 None None); Dep "b" 0 (RExact (V 1 0 0 "alpha")) ] in
+  let a := [ ((0, BMajor 2), V 2 0 0 EmptyString); ((0, BMajor 1), V 1 2 0 EmptyString);
+             ((0, BPre (V 1 0 0 "alpha")), V 1 0 0 "alpha"); ((1, BMinor 2), V 0 2 4 EmptyString) ] in
+  valid_solution idx man a = true
+  /\ edge idx man a (Dep "old" 0 (RCompat 1 (Some 1) (Some 3)))
+  /\ index_dep_version matches_fix (index_packages a) (Dep "old" 0 (RCompat 1 (Some 1) (Some 3))) = Some (V 1 2 0 EmptyString)
+  /\ index_dep_version matches_cur (index_packages a) (Dep "old" 0 (RCompat 1 (Some 1) (Some 3))) = None
+  /\ index_dep_version matches_cur (index_packages a) (Dep "back" 0 (RCompat 1 None None)) = Some (V 1 0 0 "alpha").
+Proof.
+  cbn zeta. split; [vm_compute; reflexivity|]. split.
+  - right. exists (0, BMajor 2), (V 2 0 0 EmptyString), [Dep "old" 0 (RCompat 1 (Some 1) (Some 3))].
+    split; [now left|]. split; [vm_compute; reflexivity|now left].
+  - vm_compute. repeat split.
+Qed.
